@@ -158,6 +158,24 @@ def run_params(ctx, plist):
                             if k in avg2 and not np.allclose(np.asarray(avg[k].values), np.asarray(avg2[k].values), rtol=1e-10, atol=1e-12, equal_nan=True):
                                 ctx.violation(f"sel-isel-differ:{mode}", f"selecting by label and by index of the same elements gives different {k}", rec)
                                 break
+        # several averaging modes requested in ONE call: every output must be what the single-mode call returns
+        combos = [dict(ci_avg_x_flag2=True, ci_avg_time_flag2=True), dict(ci_avg_x_flag1=True, ci_avg_time_flag1=True),
+                  dict(ci_avg_time_flag1=True, ci_avg_time_flag2=True, ci_avg_x_flag1=True, ci_avg_x_flag2=True)]
+        if case.f.double:   # the double-ended routine refuses x- and time-averaging in one call (NotImplementedError, by design)
+            combos = [dict(ci_avg_x_flag1=True, ci_avg_x_flag2=True), dict(ci_avg_time_flag1=True, ci_avg_time_flag2=True)]
+        for cb in (combos if not ctx.quick or case.f.double else combos[:1] + combos[2:]):
+            rec = {**p, "mode": "+".join(sorted(cb)), "selection": "none", "conf_ints": [2.5, 97.5]}
+            ctx.case(("c09-combined", p["seed"], rec["mode"]), sample=rec)
+            try:
+                both = avg_call(case, out, p["seed"] % 1000, conf_ints=[2.5, 97.5], **cb)
+                for fl in cb:
+                    single = avg_call(case, out, p["seed"] % 1000, conf_ints=[2.5, 97.5], **{fl: True})
+                    bad = [k for k in single.data_vars if k not in both or np.asarray(both[k].values).shape != np.asarray(single[k].values).shape
+                           or not np.allclose(np.asarray(both[k].values), np.asarray(single[k].values), rtol=1e-9, atol=1e-9, equal_nan=True)]
+                    if bad:
+                        ctx.violation(f"combined-flags-differ-from-single:{'de' if case.f.double else 'se'}:{fl}", f"with {sorted(cb)} set together {bad[:4]} differ from the call with {fl} alone", rec)
+            except Exception as ex:
+                ctx.violation(f"combined-flags-raised:{type(ex).__name__}", f"averaging with {sorted(cb)} raised {type(ex).__name__}: {str(ex)[:120]}", rec)
     codes = core.run_cases(ctx, "dims", PRELUDE, exprs, shard=40)
     for c, rec in zip(codes, meta):
         if c:
